@@ -160,6 +160,9 @@ fn x_child() {
     println!("CDONE");
 }
 
+/// watchdog budget in seconds (20 for a sweep; 180 while ONE input that exceeded it is re-run alone to confirm the hang)
+pub static WATCHDOG_SECS: std::sync::atomic::AtomicU64 = std::sync::atomic::AtomicU64::new(20);
+
 /// Run a batch in child processes; returns one fate per input.
 pub fn run_batch(inputs: &[Vec<u8>], probe: bool, tag: &str) -> Vec<Fate> {
     let dir = std::env::var("VERIF_XTMP").unwrap_or_else(|_| std::env::temp_dir().to_string_lossy().to_string());
@@ -212,7 +215,7 @@ pub fn run_batch(inputs: &[Vec<u8>], probe: bool, tag: &str) -> Vec<Fate> {
         let mut done = false;
         let mut hung = false;
         loop {
-            match rx.recv_timeout(Duration::from_secs(20)) {
+            match rx.recv_timeout(Duration::from_secs(WATCHDOG_SECS.load(std::sync::atomic::Ordering::SeqCst))) {
                 Ok(line) => {
                     let mut it = line.splitn(4, ' ');
                     match it.next() {
@@ -256,6 +259,21 @@ pub fn run_batch(inputs: &[Vec<u8>], probe: bool, tag: &str) -> Vec<Fate> {
         let i = current.unwrap_or(start);
         if i >= inputs.len() {
             break;
+        }
+        // a wall-clock watchdog must not turn a loaded machine into a finding: an input that exceeded the budget is
+        // re-run ALONE with nine times the budget; only if it still does not return is it a hang (DESIGN 10.6)
+        if hung && WATCHDOG_SECS.load(std::sync::atomic::Ordering::SeqCst) == 20 {
+            WATCHDOG_SECS.store(180, std::sync::atomic::Ordering::SeqCst);
+            let again = run_batch(&inputs[i..i + 1], probe, &format!("{}-confirm", tag));
+            WATCHDOG_SECS.store(20, std::sync::atomic::Ordering::SeqCst);
+            match again.into_iter().next() {
+                Some(Fate::Hang) | Some(Fate::HangUse) | Some(Fate::NotRun) | None => {}
+                Some(f) => {
+                    fates[i] = Some(f);
+                    start = i + 1;
+                    continue;
+                }
+            }
         }
         let why = err.lines().rev().find(|l| !l.trim().is_empty()).unwrap_or("").chars().take(160).collect::<String>();
         let desc = format!("{:?} {}", status.map(|s| s.to_string()), why);
